@@ -503,7 +503,11 @@ def build_phase(node, ctx, htf, plug_map=None):
   for spec in (node.get('plugs') or []):
     argname, idx = spec[0], spec[1]
     upd = spec[2] if len(spec) > 2 else True
-    p = htf.plugs.plug(update_kwargs=bool(upd), **{argname: plug_map[idx]})(p)
+    if len(spec) > 3 and spec[3] == 'ph':  # declared as a placeholder, substituted with with_plugs()
+      p = htf.plugs.plug(update_kwargs=bool(upd), **{argname: htf.plugs.BasePlug.placeholder})(p)
+      p = p.with_plugs(**{argname: plug_map[idx]})
+    else:
+      p = htf.plugs.plug(update_kwargs=bool(upd), **{argname: plug_map[idx]})(p)
   return p
 
 
